@@ -395,3 +395,43 @@ func VerifC18_Unary() {
 	vAssert(ma == share, "MatchAny: the two share a defined type")
 	vReach("end")
 }
+
+// ---- A2 mulVal / Multiply: exact 128-bit reference ----
+
+func specMul(a, b int64) int64 {
+	hi := vMulHi(a, b) // high word of the exact 128-bit product
+	lo := a * b         // low word
+	// the product fits int64 iff the high word is the sign extension of the low word
+	if (hi == 0 && lo >= 0) || (hi == -1 && lo < 0) {
+		return lo
+	}
+	if hi < 0 {
+		return math.MinInt64
+	}
+	return math.MaxInt64
+}
+
+func VerifC18_MulVal() {
+	a, b := vInt64("a"), vInt64("b")
+	r := mulVal(Quantity(a), Quantity(b))
+	vAssert(int64(r) == specMul(a, b), "mulVal is exact or saturates")
+	vReach("end")
+}
+
+func VerifC18_Multiply() {
+	l := vRes("l")
+	ratio := vInt64("ratio")
+	pl := vSnapOf(l)
+	out := Multiply(l, ratio)
+	vAssert(out != nil, "Multiply never returns nil")
+	vAssert(vSame(vSnapOf(l), pl), "Multiply leaves its argument unchanged")
+	o := vSnapOf(out)
+	for i := 0; i < vNKeys(); i++ {
+		if ratio != 0 {
+			vAssert(o.has(i) == pl.has(i), "Multiply keeps exactly the types of the base")
+		}
+		vAssert(o.get(i) == specMul(pl.get(i), ratio), "Multiply is component-wise exact or saturating")
+	}
+	vAssert(vNoAlias(out, l), "Multiply result shares no map with its argument")
+	vReach("end")
+}
